@@ -315,8 +315,27 @@ class CallMixin:
         seen = set()
         mod = cls.module
 
+        def domain_guard_raises(fnode):
+            """Raise statements that are the explicit form of the 16-bit range check (if not 0 <= v <= 65535: raise ValueError): the
+            primitive written with item assignment refuses the same values implicitly, and what reaches it (identifiers from the
+            allocator or from a decoded packet, measured lengths behind their own guard) is in range by the rules of C17 / C20."""
+            from .codec_prims import truth_set, _iv_not
+            out = set()
+            if not isinstance(fnode, ast.FunctionDef) or not fnode.args.args:
+                return out
+            var = fnode.args.args[0].arg
+            for y in ast.walk(fnode):
+                if isinstance(y, ast.If):
+                    t = truth_set(y.test, var, lambda e: self.prog.try_fold(e, mod))
+                    if t is not None and _iv_not(t) == [(0, 65535)]:
+                        out |= {id(z) for z in y.body if isinstance(z, ast.Raise)}
+            return out
+
         def scan(fnode):
+            skip = domain_guard_raises(fnode)
             for x in ast.walk(fnode):
+                if isinstance(x, ast.Raise) and id(x) in skip:
+                    continue
                 if isinstance(x, ast.Raise) and x.exc is not None:
                     e = x.exc.func if isinstance(x.exc, ast.Call) else x.exc
                     if isinstance(e, ast.Name):
